@@ -63,6 +63,27 @@ class Ctx:
                     pass  # a torn line (concurrent printing) is dropped, never guessed
         return out
 
+    def generate(self, module, cfg, num, depth, timeout=1200):
+        """(G) seeded TLC -simulate walks; the spec prints every finished behaviour as JSON"""
+        r = tlc(self.sc, module, cfg, workers=1, timeout=timeout, simulate="num=%d" % num,
+                extra=("-depth", str(depth), "-seed", str(seed())))
+        if r.errors and not any("simulation" in e.lower() for e in r.errors):
+            raise NoVerdict("TLC simulation %s/%s failed:\n%s" % (module, cfg, r.out[-4000:]))
+        out = []
+        for l in r.out.splitlines():
+            if l.startswith('"BEHAVIOUR '):
+                try:
+                    out.append(json.loads(l).split(" ", 1)[1])
+                except Exception:
+                    pass
+        out = sorted(set(out))
+        log("(G) TLC -simulate %s/%s: %d distinct behaviours in %.1fs" % (module, cfg, len(out), r.wall))
+        if not out:
+            raise NoVerdict("TLC simulation %s/%s produced no behaviour:\n%s" % (module, cfg, r.out[-3000:]))
+        self.notes.setdefault("tlc_generated_behaviours", 0)
+        self.notes["tlc_generated_behaviours"] += len(out)
+        return out
+
     # ------------------------------------------------------------ harness
     @property
     def vdrive(self):
@@ -267,3 +288,29 @@ def c12(ctx):
     # long keys (1018..1024 bytes, 0xFF heavy), keys spelled like the bookkeeping keys, extreme bounds on the real FSM
     n, ops = (40, 40) if q else (400, 60)
     ctx.gv("long-key-histories", "Trace_Table", ["table", "--mode", "hist", "--class", "1", "--seed", str(seed()), "--n", str(n), "--ops", str(ops)])
+
+
+@check("C13")
+def c13(ctx):
+    ctx.assumptions += ["glob patterns are restricted to whole-segment '*' (the only form the callers use); listing order is not demanded (compared as sets / bags)",
+                        "dragonboat delivers the committed entries in order to LFSM.Update; the driver chooses the apply batches"]
+    q = ctx.quick
+    logs = ctx.design("MC_MetaKV", "MC_MetaKV_quick.cfg" if q else "MC_MetaKV_thorough.cfg", sample=400 if q else 4000)
+    if not ctx.gv("tlc-logs", "Trace_MetaKV", ["metakv", "--mode", "convlog", "--seed", str(seed())], inputs=logs):
+        return
+    n, ops = (150, 25) if q else (2000, 40)
+    if not ctx.gv("random-logs", "Trace_MetaKV", ["metakv", "--mode", "lfsm", "--seed", str(seed()), "--n", str(n), "--ops", str(ops)]):
+        return
+    n, ops = (5, 40) if q else (40, 120)
+    ctx.gv("raftstore", "Trace_MetaKV", ["metakv", "--mode", "raft", "--seed", str(seed()), "--n", str(n), "--ops", str(ops)])
+
+
+@check("C15")
+def c15(ctx):
+    ctx.assumptions += ["time is abstracted: a lease is written either with +1h (unexpired for the whole run) or -1h (already expired)",
+                        "the managers of all nodes share one real kv.RaftStore on a one-node NodeHost (a local read after an acknowledged write is current); replica lag of the metadata shard is not part of this check",
+                        "store calls are released one at a time in the order of a TLC-generated schedule (gated store wrapper)"]
+    q = ctx.quick
+    ctx.design("Lease", "MC_Lease_quick.cfg")
+    beh = ctx.generate("Lease", "MC_Lease_gen.cfg", num=1500 if q else 30000, depth=16)
+    ctx.gv("tlc-schedules", "Trace_Lease", ["lease"], inputs=beh)
